@@ -8,7 +8,7 @@
 From Coq Require Import ZArith List Bool.
 From CyVerif Require Import Lib.CInt Lib.PyLong Model.M_Cmp Proof.P_Cmp Proof.P_CmpSw.
 From CyVerif Require Import Model.M_CmpInt Proof.P_CmpInt Model.M_CmpFloat Proof.P_CmpFloat Proof.P_CmpFloatQ.
-From CyVerif Require Import Model.M_CmpFold Proof.P_CmpFold.
+From CyVerif Require Import Model.M_CmpFold Proof.P_CmpFold Model.M_CmpNot Proof.P_CmpNot.
 Import ListNotations.
 Open Scope Z_scope.
 
@@ -423,3 +423,20 @@ Proof.
   split; [exact (proj2 (proj2 (proj2 (proj2 w_hyps))))|]. split; [discriminate|].
   split; vm_compute; reflexivity.
 Qed.
+
+(* ---- ConstantFolding._handle_NotNode: `not (a in b)` -> `a not in b`, `not (a is b)` ->
+        `a is not b` (after folding the operand; a literal operand gives the literal `not`;
+        everything else keeps its NotNode) has the same value or exception and the same operand
+        evaluations as the NotNode, for every folded operand, when `not in` / `is not` are the
+        negations of `in` / `is` (language reference) ---- *)
+Theorem C19_constfold_not_eq : forall cmp truth vbool,
+  (forall b, truth (vbool b) = inl b) ->
+  (forall op op' a b, negate_op op = Some op' ->
+     match cmp op a b with
+     | inr x => cmp op' a b = inr x
+     | inl r => exists bb, r = vbool bb /\ cmp op' a b = inl (vbool (negb bb))
+     end) ->
+  forall ns, obs quiet (eval_nexpr cmp truth vbool (handle_not ns)) =
+             obs quiet (eval_nexpr cmp truth vbool (NNot ns)).
+Proof. exact handle_not_correct. Qed.
+Print Assumptions C19_constfold_not_eq.
